@@ -14,6 +14,8 @@ LINE_POOL = ["a", "b", "ab", "abc", "x = 1", "x = 2", "y = x + 2", "print(x)", "
              "a b c d e f g H", "the quick brown fox jumps", "the quick brown fox jumped", "åäö 中",
              "<<<<<<< local", "=======", "0", "1"]
 
+LONG_UNITS = ["0, ", "A", "ab", "iVBORw0KGgo", "1.5, "]
+
 scalars = st.sampled_from([None, True, False, 0, 1, 2, -1, 0.0, 1.0, 2.5, -0.5, 10 ** 12, "a", "b", "", "1", "true"])
 
 
@@ -25,7 +27,12 @@ def text(draw, maxlines=5, exotic=None):
     seps = SEPS if exotic else ["\n", "\n", "\n", "\r\n"]
     parts = []
     for i in range(n):
-        parts.append(draw(st.sampled_from(LINE_POOL)))
+        if draw(st.integers(0, 24)) == 0:
+            # one very long line made of a repeated unit (a one-line array, base64 padding): 200 .. 2000 characters
+            unit = draw(st.sampled_from(LONG_UNITS))
+            parts.append(draw(st.sampled_from(["", "[", "x = "])) + unit * draw(st.integers(200 // len(unit), 2000 // len(unit))) + draw(st.sampled_from(["", "]", "=="])))
+        else:
+            parts.append(draw(st.sampled_from(LINE_POOL)))
         parts.append(draw(st.sampled_from(seps)))
     if parts and draw(st.booleans()):
         parts.pop()
@@ -67,7 +74,9 @@ def edit_text(draw, s):
             body = lines[i].rstrip("".join(SEPS))
             eol = lines[i][len(body):]
             k = draw(st.integers(0, len(body)))
+            w = draw(st.integers(1, 8))
             lines[i] = draw(st.sampled_from([body[:k] + "Z" + body[k:], body[:k] + body[k + 1:], body + " #", "q" + body,
+                                             body[:k] + body[k:k + w] + body[k:], body[:k] + body[k + w:],       # a run grows / shrinks
                                              draw(st.sampled_from(LINE_POOL))])) + eol
         elif op == "eol":
             i = draw(st.integers(0, len(lines) - 1))
@@ -153,8 +162,33 @@ def container(draw, depth=3):
 
 
 @st.composite
+def long_line_pair(draw):
+    """Two texts sharing a line of more than 1000 characters built from a repeated unit, in which a run grows or shrinks."""
+    unit = draw(st.sampled_from(LONG_UNITS))
+    n = draw(st.integers(1001 // len(unit) + 1, 2400 // len(unit)))
+    pre, post = draw(st.sampled_from(["", "[", "data = ["])), draw(st.sampled_from(["", "]", "=="]))
+    line = pre + unit * n + post
+    k, w = draw(st.integers(0, len(line))), draw(st.integers(1, 3 * len(unit)))
+    line2 = draw(st.sampled_from([line[:k] + line[k:k + w] + line[k:], line[:k] + line[k + w:], line[:k] + "Z" + line[k:],
+                                  pre + unit * (n + draw(st.integers(1, 3))) + post, pre + unit * (n - draw(st.integers(1, 3))) + post]))
+    before, after = draw(text(2, exotic=False)), draw(text(2, exotic=False))
+    if before and not before.endswith("\n"):
+        before += "\n"
+    eol = draw(st.sampled_from(["\n", "\n", ""])) if not after else "\n"
+    a, b = before + line + eol + after, before + line2 + eol + after
+    wrap = draw(st.sampled_from(["str", "str", "list", "dict"]))
+    if wrap == "list":
+        return ["x", a], ["x", b], "long_line"
+    if wrap == "dict":
+        return {"k": a, "a": 1}, {"k": b, "a": 1}, "long_line"
+    return a, b, "long_line"
+
+
+@st.composite
 def pair(draw):
     """(a, b, relation) of equal container type."""
+    if draw(st.integers(0, 24)) == 0:
+        return draw(long_line_pair())
     a = draw(container())
     if draw(st.integers(0, 9)) == 0:
         # unrelated, same container type
